@@ -24,7 +24,8 @@ STRING_OVERRIDE = ("    def STRING(self, v):\n"
 VARIANTS = [
     # ------------------------------------------------------------------ R1 breaking
     {"name": "R1 .data() on the rebound tuple again (D10)", "file": PACK, "expect": "C12.R1",
-     "old": "            return list(x[:needed_elems])\n", "new": "            return list(x.data(needed_elems))\n"},
+     "old": "            return list(x.data(needed_elems)[:needed_elems])\n",
+     "new": "            x = x.data()\n            return list(x.data(needed_elems))\n"},
     {"name": "R1 U64 carried as signed 64 bit", "file": PACK, "expect": "C12.R1",
      "old": "MsgType.MVT_U64: _make_struct_spec('!Q'),", "new": "MsgType.MVT_U64: _make_struct_spec('!q'),"},
     {"name": "R1 U32 carried in two bytes", "file": PACK, "expect": "C12.R1",
@@ -287,11 +288,11 @@ VARIANTS = [
                        "    return lambda x: typ(*x), _packer\n"}]},
     # ------------------------------------------------------------------ round 4
     {"name": "R1 LLSD packer rescales the components it hands over", "file": PACK, "expect": "C12.R1",
-     "old": "            return list(x[:needed_elems])\n",
-     "new": "            return [c * 0.5 for c in x[:needed_elems]]\n"},
+     "old": "            return list(x.data(needed_elems)[:needed_elems])\n",
+     "new": "            return [c * 0.5 for c in x.data(needed_elems)[:needed_elems]]\n"},
     {"name": "P1 LLSD packer copies the components in a comprehension", "file": PACK, "expect": "silent",
-     "old": "            return list(x[:needed_elems])\n",
-     "new": "            return [c for c in x[:needed_elems]]\n"},
+     "old": "            return list(x.data(needed_elems)[:needed_elems])\n",
+     "new": "            return [c for c in x.data(needed_elems)[:needed_elems]]\n"},
     {"name": "R1 conversion loop in a helper, deserialize hands it a shallow copy", "expect": "C12.R1",
      "edits": [{"file": MSGSER, "old": "            llsd_val = copy.deepcopy(llsd_val)\n", "new": "            llsd_val = dict(llsd_val)\n"},
                {"file": MSGSER,
